@@ -27,25 +27,29 @@ Lemma seteqb_sound {A} (eqb:A -> A -> bool) (H:forall x y, eqb x y = true <-> x 
   seteqb eqb a b = true -> set_equiv a b.
 Proof. unfold seteqb, set_equiv. rewrite !andb_true_iff. intros [[H1 H2] _] x.
   split; apply (subsetb_sound eqb H); auto. Qed.
+Lemma ooname_eqb_eq a b : ooname_eqb a b = true <-> a = b.
+Proof. destruct a, b; simpl; try (split; congruence). rewrite oname_eqb_eq. split; congruence. Qed.
 Lemma desc_eqb_w_sound ad a b : desc_eqb_w ad a b = true -> desc_equiv_w ad a b.
-Proof. unfold desc_eqb_w, desc_equiv_w. rewrite !andb_true_iff. intros [[[[H1 H2] H3] H4] H5]. repeat split.
-  - apply (seteqb_sound col_eqb col_eqb_eq _ _ H1).
-  - apply (seteqb_sound col_eqb col_eqb_eq _ _ H1).
-  - apply (list_eqb_spec col_eqb col_eqb_eq); auto.
-  - apply names_eqb_eq; auto.
-  - apply (seteqb_sound con_eqb con_eqb_eq _ _ H4).
-  - apply (seteqb_sound con_eqb con_eqb_eq _ _ H4).
-  - apply (seteqb_sound index_eqb index_eqb_eq _ _ H5).
-  - apply (seteqb_sound index_eqb index_eqb_eq _ _ H5).
+Proof. unfold desc_eqb_w, desc_equiv_w. rewrite !andb_true_iff. intros [[[[[H1 H2] Hg] H3] H4] H5].
+  split; [apply (seteqb_sound col_eqb col_eqb_eq _ _ H1)|].
+  split; [apply (list_eqb_spec col_eqb col_eqb_eq); auto|].
+  split; [|split; [apply names_eqb_eq; auto|split; [apply (seteqb_sound con_eqb con_eqb_eq _ _ H4)|apply (seteqb_sound index_eqb index_eqb_eq _ _ H5)]]].
+  unfold same_gaps_b in Hg. rewrite forallb_forall in Hg. intros c Hc Hm. specialize (Hg c Hc). rewrite Hm in Hg.
+  apply ooname_eqb_eq; auto.
 Qed.
+
+Lemma desc_eqb_sound a b : desc_eqb a b = true -> desc_equiv a b.
+Proof. unfold desc_eqb, desc_equiv. rewrite !andb_true_iff. intros [[[H1 H2] H3] H4].
+  split; [apply (list_eqb_spec col_eqb col_eqb_eq); auto|]. split; [apply names_eqb_eq; auto|].
+  split; [apply (seteqb_sound con_eqb con_eqb_eq _ _ H3)|apply (seteqb_sound index_eqb index_eqb_eq _ _ H4)]. Qed.
 
 Theorem decider_sound10 i o : check_C10 i o = true -> C10_holds i o.
 Proof.
   destruct o as [nd rows tl|e]; cbn [check_C10 C10_holds]; auto.
-  rewrite !andb_true_iff. intros [[[[[[H1 H2] H3] H4] H5] H6] H7].
+  rewrite !andb_true_iff. intros [[[[[[[H1 H2] H3] H4] H5] H6] Hs] H7].
   split; [destruct tl; auto; discriminate|].
   split; [apply Nat.eqb_eq; auto|].
-  split; [auto|]. split; [apply mseqb_sound; auto|]. split; [auto|]. split; [auto|].
+  split; [auto|]. split; [apply mseqb_sound; auto|]. split; [auto|]. split; [auto|]. split; [auto|].
   intros T' HT. rewrite HT in H7. apply desc_eqb_w_sound; auto.
 Qed.
 
@@ -100,17 +104,51 @@ Record Inv (s:bstate) (T:tbl) : Prop := mkInv {
   inv_ord : b_order s = [];
   inv_ex : b_existing s = akeys (b_cols s);
   inv_wfc : Forall (fun c => incl (k_cols c) (akeys (tb_cols T))) (tb_cons T);
-  inv_wfp : incl (tb_pk T) (akeys (tb_cols T)) }.
+  inv_wfp : incl (tb_pk T) (akeys (tb_cols T));
+  inv_nd : NoDup (map k_name (b_named s));
+  (* a column that still carries the primary_key flag is a column of a primary key constraint that is still there *)
+  inv_fl : forall k, In k (b_flags s) -> In k (akeys (b_cols s)) ->
+           In k (b_pk s) \/ exists c, In c (b_named s) /\ is_primary c = true /\ In k (k_cols c) }.
+
+Lemma has_dup_false_NoDup l : has_dup l = false -> NoDup l.
+Proof. induction l as [|x l IH]; simpl; [constructor|]. intros H. apply orb_false_iff in H. destruct H as [H1 H2].
+  constructor; auto. apply mem_name_false; auto. Qed.
+Lemma pk_drop_col_name k c : k_name (pk_drop_col k c) = k_name c.
+Proof. unfold pk_drop_col. destruct (is_primary c); auto. Qed.
+Lemma pk_drop_col_primary k c : is_primary (pk_drop_col k c) = is_primary c.
+Proof. unfold pk_drop_col. destruct (is_primary c) eqn:E; auto. Qed.
+Lemma con_get_some_in n l c : con_get n l = Some c -> In c l /\ k_name c = n.
+Proof. unfold con_get. intros H. apply find_some in H. destruct H as [H1 H2]. apply name_eqb_eq in H2. auto. Qed.
+Lemma con_get_none_notin n l : con_get n l = None -> ~ In n (map k_name l).
+Proof. unfold con_get. intros H Hin. apply in_map_iff in Hin. destruct Hin as [c [<- Hc]].
+  pose proof (find_none _ _ H c Hc) as E. cbn in E. rewrite name_eqb_refl in E. discriminate. Qed.
+Lemma names_unique l c c' : NoDup (map k_name l) -> In c l -> In c' l -> k_name c = k_name c' -> c = c'.
+Proof. induction l as [|x l IH]; simpl; [tauto|]. intros Hn H1 H2 E. inversion Hn as [|? ? Hx Hl]; subst.
+  destruct H1 as [<-|H1], H2 as [<-|H2]; auto.
+  - exfalso. apply Hx. rewrite E. apply in_map; auto.
+  - exfalso. apply Hx. rewrite <- E. apply in_map; auto. Qed.
+Lemma NoDup_snoc {A} (l:list A) x : NoDup l -> ~ In x l -> NoDup (l ++ [x]).
+Proof. induction l as [|y l IH]; simpl; intros H Hn; [constructor; auto; constructor|].
+  inversion H; subst. constructor; [|apply IH; auto]. intros Hi. apply in_app_or in Hi. destruct Hi as [Hi|[<-|[]]]; auto. Qed.
+Lemma NoDup_map_filter {A B} (f:A -> B) (p:A -> bool) l : NoDup (map f l) -> NoDup (map f (filter p l)).
+Proof. induction l as [|x l IH]; simpl; auto. intros H. inversion H; subst. destruct (p x); simpl; auto.
+  constructor; auto. intros Hi. apply in_map_iff in Hi. destruct Hi as [y [E Hy]]. apply filter_In in Hy.
+  match goal with Hn : ~ In (f x) (map f l) |- _ => apply Hn end. rewrite <- E. apply in_map; tauto. Qed.
+Lemma filter_nil {A} (f:A -> bool) l : (forall x, In x l -> f x = false) -> filter f l = [].
+Proof. induction l as [|x l IH]; simpl; auto. intros H. rewrite (H x) by auto. apply IH; auto. Qed.
 
 Lemma init_inv T : wf_tbl T = true -> Inv (init T) T.
 Proof.
-  unfold wf_tbl. rewrite andb_true_iff, forallb_forall, sub_names_incl. intros [H1 H2].
+  unfold wf_tbl. rewrite !andb_true_iff, forallb_forall, sub_names_incl, negb_true_iff. intros [[H1 H2] H3].
   constructor; cbn; auto.
   - unfold akeys. rewrite map_map. auto.
   - apply Forall_forall. intros p Hp. apply in_map_iff in Hp. destruct Hp as [q [<- _]]. exists []. auto.
   - rewrite app_nil_r; auto.
   - intros x [].
   - apply Forall_forall. intros c Hc. apply sub_names_incl. auto.
+  - apply has_dup_false_NoDup; auto.
+  - intros k Hk _. apply in_app_or in Hk. destruct Hk as [Hk|Hk]; [left; auto|]. right.
+    apply in_flat_map in Hk. destruct Hk as [c [Hc Hkc]]. apply filter_In in Hc. exists c. tauto.
 Qed.
 
 Lemma adel_Forall {V} (P:key * V -> Prop) k l : Forall P l -> Forall P (adel k l).
@@ -122,34 +160,46 @@ Lemma aget_some_in {V} k (l:list (key * V)) v : aget k l = Some v -> In k (akeys
 Proof. unfold akeys. induction l as [|[k' v'] l IH]; simpl; [congruence|]. destruct (name_eqb k k') eqn:E.
   - apply name_eqb_eq in E; subst; auto.
   - auto. Qed.
+
 Lemma aget_keys_none {V W} k (a:list (key * V)) (b:list (key * W)) : akeys a = akeys b -> aget k a = None -> aget k b = None.
 Proof. unfold akeys. revert b. induction a as [|[k1 v1] a IH]; destruct b as [|[k2 v2] b]; simpl; try congruence.
   intros E. inversion E; subst. destruct (name_eqb k k2); [congruence|]. apply IH; auto. Qed.
 
-Ltac psimpl := cbn [b_cols b_tr b_named b_pk b_idx b_newidx b_order b_existing tb_cols tb_pk tb_cons tb_idx].
+Ltac psimpl := cbn [b_cols b_tr b_named b_pk b_idx b_newidx b_order b_existing b_flags tb_cols tb_pk tb_cons tb_idx].
 
 Lemma step_refines o s s' T T' :
   in_class o = true -> Inv s T -> apply_batch_op o s = BOk s' -> edit o T = BOk T' -> Inv s' T'.
 Proof.
-  intros Hc [Icols Itrk Isrc Icons Ipk Iidx Inew Iord Iex Iwfc Iwfp] Hm He.
+  intros Hc [Icols Itrk Isrc Icons Ipk Iidx Inew Iord Iex Iwfc Iwfp Ind Ifl] Hm He.
   destruct o as [k c b a|k|k a|c|n|x|n]; cbn [in_class] in Hc; try discriminate.
   - (* drop column *)
     cbn [apply_batch_op edit] in *. unfold has_key in He. rewrite <- Icols in He.
     destruct (aget k (b_cols s)) eqn:G; [|discriminate]. cbn in He.
     destruct (mem_name k (b_existing s)); [|discriminate].
     destruct (existsb (fun x => mem_name k (x_cols x)) (tb_idx T)); [discriminate|].
-    destruct (existsb (fun c => mem_name k (k_cols c)) (tb_cons T)) eqn:Ec; [discriminate|].
+    destruct (existsb (fun c => negb (is_primary c) && mem_name k (k_cols c)) (tb_cons T)) eqn:Ec; [discriminate|].
     inversion Hm; inversion He; subst s' T'; clear Hm He.
     constructor; psimpl; auto.
     + rewrite !akeys_adel. congruence.
     + apply adel_Forall; auto.
     + congruence.
+    + congruence.
     + rewrite akeys_adel. congruence.
-    + rewrite akeys_adel. apply Forall_forall. intros c1 Hc'. rewrite Forall_forall in Iwfc.
-      intros y Hy. apply remove_name_In. split; [rewrite Icols; apply (Iwfc c1 Hc'); auto|].
-      pose proof (existsb_false_forall _ _ Ec c1 Hc') as Hk. apply mem_name_false in Hk. intro; subst; auto.
+    + rewrite akeys_adel. apply Forall_forall. intros c1 Hc'. apply in_map_iff in Hc'. destruct Hc' as [c0 [<- Hc0]].
+      rewrite Forall_forall in Iwfc. intros y Hy. apply remove_name_In. unfold pk_drop_col in Hy.
+      destruct (is_primary c0) eqn:Ep; cbn [k_cols] in Hy.
+      * apply remove_name_In in Hy. split; [rewrite Icols; apply (Iwfc c0 Hc0); tauto|tauto].
+      * split; [rewrite Icols; apply (Iwfc c0 Hc0); auto|].
+        pose proof (existsb_false_forall _ _ Ec c0 Hc0) as Hk. cbn in Hk. rewrite Ep in Hk. cbn in Hk.
+        apply mem_name_false in Hk. intro; subst; auto.
     + rewrite akeys_adel. intros y Hy. apply remove_name_In in Hy. destruct Hy as [Hy1 Hy2].
       apply remove_name_In. split; auto. rewrite Icols. apply Iwfp. auto.
+    + rewrite map_map. erewrite map_ext; [exact Ind|]. intros; apply pk_drop_col_name.
+    + intros k0 Hk0 Hin. rewrite akeys_adel in Hin. apply remove_name_In in Hin. destruct Hin as [Hin Hne].
+      destruct (Ifl k0 Hk0 Hin) as [Hp|[c1 [Hc1 [Hp1 Hk1]]]].
+      * left. apply remove_name_In. auto.
+      * right. exists (pk_drop_col k c1). split; [apply in_map; auto|]. split; [rewrite pk_drop_col_primary; auto|].
+        unfold pk_drop_col. rewrite Hp1. cbn. apply remove_name_In. auto.
   - (* alter column *)
     cbn [apply_batch_op edit] in *. rewrite <- Icols in He.
     destruct (aget k (b_cols s)) as [c|] eqn:G; [|discriminate].
@@ -178,21 +228,36 @@ Proof.
     + rewrite akeys_aset; auto.
     + rewrite akeys_aset, Icols; auto.
     + rewrite akeys_aset, Icols; auto.
+    + intros k0 Hk0 Hin. rewrite akeys_aset in Hin; auto.
   - (* add constraint *)
     cbn [apply_batch_op edit] in *. rewrite <- Icons in He.
     destruct (is_some (con_get (k_name c) (b_named s))) eqn:F; [discriminate|]. cbn in He.
     destruct (sub_names (k_cols c) (akeys (tb_cols T))) eqn:Sb; [|discriminate]. cbn in He.
     inversion Hm; inversion He; subst s' T'; clear Hm He.
+    apply is_some_false in F.
     constructor; psimpl; auto.
-    + rewrite con_set_fresh; auto. apply is_some_false; auto.
+    + rewrite con_set_fresh; auto.
     + apply Forall_app. split; [rewrite Icons; auto|]. constructor; auto. apply sub_names_incl; auto.
+    + rewrite con_set_fresh; auto. rewrite map_app. cbn. apply NoDup_snoc; auto. apply con_get_none_notin; auto.
+    + intros k0 Hk0 Hin. destruct (Ifl k0 Hk0 Hin) as [Hp|[c1 [Hc1 H1]]]; [left; auto|].
+      right. exists c1. split; auto. rewrite con_set_fresh; auto. apply in_or_app; auto.
   - (* drop constraint *)
     cbn [apply_batch_op edit] in *. rewrite <- Icons in He.
-    destruct (con_get n (b_named s)); [|discriminate]. cbn in He.
+    destruct (con_get n (b_named s)) as [c0|] eqn:F; [|discriminate]. cbn in He.
     inversion Hm; inversion He; subst s' T'; clear Hm He.
+    destruct (con_get_some_in _ _ _ F) as [Hc0 Hn0].
     constructor; psimpl; auto.
-    unfold con_del. apply Forall_forall. intros c1 Hc'. apply filter_In in Hc'.
-    rewrite Forall_forall in Iwfc. apply Iwfc. rewrite <- Icons. tauto.
+    + unfold con_del. apply Forall_forall. intros c1 Hc'. apply filter_In in Hc'.
+      rewrite Forall_forall in Iwfc. apply Iwfc. rewrite <- Icons. tauto.
+    + unfold con_del. apply NoDup_map_filter; auto.
+    + intros k0 Hk0 Hin.
+      assert (Hk0' : In k0 (b_flags s)) by (destruct (is_primary c0); [apply filter_In in Hk0; tauto|auto]).
+      destruct (Ifl k0 Hk0' Hin) as [Hp|[c1 [Hc1 [Hp1 Hk1]]]]; [left; auto|].
+      right. exists c1. split; [|auto]. unfold con_del. apply filter_In. split; auto.
+      apply negb_true_iff. apply name_eqb_neq. intro Heq.
+      assert (c1 = c0) by (apply (names_unique (b_named s)); auto; congruence). subst c1.
+      rewrite Hp1 in Hk0. apply filter_In in Hk0. destruct Hk0 as [_ Hk0]. apply negb_true_iff in Hk0.
+      apply mem_name_false in Hk0. auto.
   - (* create index *)
     cbn [apply_batch_op edit] in *.
     destruct (is_some (idx_get (x_name x) (tb_idx T))) eqn:F; [discriminate|]. cbn in He.
@@ -245,15 +310,24 @@ Section Refinement.
     nd = describe T /\ map (fun e => snd (fst e)) cm = akeys (tb_cols T) /\
     (forall e, In e cm -> fst (fst e) = cur_name (tb_cols T) (snd (fst e))).
   Proof.
-    intros [Icols Itrk Isrc Icons Ipk Iidx Inew Iord Iex Iwfc Iwfp]. unfold finish, reorder. rewrite Iord.
-    destruct (has_dup _); [discriminate|]. match goal with |- context [existsb ?g (flat_map x_cols (b_idx s))] => destruct (existsb g (flat_map x_cols (b_idx s))); [discriminate|] end.
+    intros [Icols Itrk Isrc Icons Ipk Iidx Inew Iord Iex Iwfc Iwfp Ind Ifl]. unfold finish, reorder. rewrite Iord.
+    destruct (has_dup _); [discriminate|]. destruct (no_transfer _); [discriminate|].
+    match goal with |- context [existsb ?g (flat_map x_cols (b_idx s))] => destruct (existsb g (flat_map x_cols (b_idx s))); [discriminate|] end.
     destruct (negb (forallb _ (b_newidx s))); [discriminate|]. destruct (negb (forallb _ (b_idx s ++ b_newidx s))); [discriminate|].
     intros E. inversion E; subst nd cm; clear E. split; [|rewrite <- Icols, <- Itrk; apply cm_own; auto].
+    assert (Hkept : filter (fun c => sub_names (k_cols c) (akeys (b_tr s))) (b_named s) = b_named s).
+    { apply filter_all. intros c Hc. apply sub_names_incl. rewrite Itrk, Icols.
+      rewrite Forall_forall in Iwfc. apply Iwfc. rewrite <- Icons. auto. }
+    rewrite Hkept.
     unfold describe. rewrite <- Icols, <- Icons, <- Ipk, Iidx. f_equal.
-    - rewrite Itrk. replace (sub_names (b_pk s) (akeys (b_cols s))) with true; auto.
-      symmetry. apply sub_names_incl. rewrite Ipk, Icols. auto.
-    - f_equal. apply filter_all. intros c Hc. apply sub_names_incl. rewrite Itrk, Icols.
-      rewrite Forall_forall in Iwfc. apply Iwfc. rewrite <- Icons. auto.
+    rewrite Itrk. replace (sub_names (b_pk s) (akeys (b_cols s))) with true
+      by (symmetry; apply sub_names_incl; rewrite Ipk, Icols; auto).
+    destruct (b_pk s) as [|k0 l0] eqn:Epk; [|reflexivity].
+    destruct (existsb is_primary (b_named s)) eqn:Ep; [reflexivity|].
+    rewrite filter_nil; [reflexivity|]. intros k Hk. destruct (mem_name k (b_flags s)) eqn:Em; auto. exfalso.
+    apply mem_name_In in Em. destruct (Ifl k Em Hk) as [Hp|[c [Hc [Hp _]]]].
+    - try rewrite Epk in Hp. destruct Hp.
+    - pose proof (existsb_false_forall _ _ Ep c Hc). congruence.
   Qed.
 
   (* C10_schema / C10_rows *)
@@ -289,7 +363,7 @@ Proof. intros H. unfold remove_name. apply filter_all. intros x Hx. apply negb_t
 Lemma edit_untouched o T T' : in_class o = true -> edit o T = BOk T' ->
   ((forall k, In k (tb_pk T) -> ~ In k (op_mentions o)) -> tb_pk T' = tb_pk T) /\
   (forall k, ~ In k (op_mentions o) -> aget k (tb_cols T') = aget k (tb_cols T)) /\
-  (forall c, In c (tb_cons T) -> ~ In (k_name c) (op_mentions o) -> In c (tb_cons T')) /\
+  (forall c, In c (tb_cons T) -> ~ In (k_name c) (op_mentions o) -> (forall x, In x (k_cols c) -> ~ In x (op_mentions o)) -> In c (tb_cons T')) /\
   (forall x, In x (tb_idx T) -> ~ In (x_name x) (op_mentions o) -> In x (tb_idx T')).
 Proof.
   intros Hc He. destruct o as [k c b a|k|k a|c|n|x|n]; cbn [in_class edit op_mentions] in *; try discriminate.
@@ -297,11 +371,13 @@ Proof.
     inversion He; subst T'; cbn. repeat split; auto.
     + intros Hpk. apply remove_name_notin. intro Hin. apply (Hpk k Hin). simpl; auto.
     + intros k0 Hk. apply aget_adel_other. simpl in Hk. intuition.
+    + intros c Hc1 _ Hc3. apply in_map_iff. exists c. split; auto. unfold pk_drop_col. destruct (is_primary c); auto.
+      rewrite remove_name_notin; [destruct c; reflexivity|]. intro Hin. apply (Hc3 k Hin). simpl; auto.
   - destruct (aget k (tb_cols T)); [|discriminate]. destruct (mem_name _ _); [discriminate|].
     inversion He; subst T'; cbn. repeat split; auto. intros k0 Hk. apply aget_aset_other. simpl in Hk. intuition.
   - destruct (_ || _); [discriminate|]. inversion He; subst T'; cbn. repeat split; auto. intros; apply in_or_app; auto.
   - destruct (is_some _); [|discriminate]. inversion He; subst T'; cbn. repeat split; auto.
-    intros c Hc1 Hc2. unfold con_del. apply filter_In. split; auto. apply negb_true_iff. apply name_eqb_neq. simpl in Hc2. intuition.
+    intros c Hc1 Hc2 _. unfold con_del. apply filter_In. split; auto. apply negb_true_iff. apply name_eqb_neq. simpl in Hc2. intuition.
   - destruct (_ || _); [discriminate|]. inversion He; subst T'; cbn. repeat split; auto. intros; apply in_or_app; auto.
   - destruct (is_some _); [|discriminate]. inversion He; subst T'; cbn. repeat split; auto.
     intros x Hx1 Hx2. unfold idx_del. apply filter_In. split; auto. apply negb_true_iff. apply name_eqb_neq. simpl in Hx2. intuition.
@@ -310,7 +386,7 @@ Qed.
 Theorem untouched_spec ops : forall T T', forallb in_class ops = true -> edit_all ops T = BOk T' ->
   ((forall k, In k (tb_pk T) -> ~ In k (mentioned ops)) -> tb_pk T' = tb_pk T) /\
   (forall k, ~ In k (mentioned ops) -> aget k (tb_cols T') = aget k (tb_cols T)) /\
-  (forall c, In c (tb_cons T) -> ~ In (k_name c) (mentioned ops) -> In c (tb_cons T')) /\
+  (forall c, In c (tb_cons T) -> ~ In (k_name c) (mentioned ops) -> (forall x, In x (k_cols c) -> ~ In x (mentioned ops)) -> In c (tb_cons T')) /\
   (forall x, In x (tb_idx T) -> ~ In (x_name x) (mentioned ops) -> In x (tb_idx T')).
 Proof.
   induction ops as [|o ops IH]; cbn [edit_all forallb mentioned flat_map]; intros T T' Hc He.
@@ -321,7 +397,8 @@ Proof.
     + intros Hpk. assert (E1 : tb_pk T1 = tb_pk T) by (apply A0; intros k Hk Hm; apply (Hpk k Hk); apply in_or_app; auto).
       rewrite <- E1. apply B0. intros k Hk Hm. rewrite E1 in Hk. apply (Hpk k Hk). apply in_or_app; auto.
     + intros k Hk. rewrite B1, A1; auto; intro; apply Hk; apply in_or_app; auto.
-    + intros c Hc Hn. apply B2; [apply A2; auto|]; intro; apply Hn; apply in_or_app; auto.
+    + intros c Hc Hn Hx. apply B2; [apply A2; auto| |]; try (intro; apply Hn; apply in_or_app; auto);
+        intros x Hxc Hm; apply (Hx x Hxc); apply in_or_app; auto.
     + intros x Hx Hn. apply B3; [apply A3; auto|]; intro; apply Hn; apply in_or_app; auto.
 Qed.
 
@@ -359,16 +436,25 @@ Proof.
   specialize (H [VInt 1; VInt 1; VText [120]; VNull]). vm_compute in H. discriminate.
 Qed.
 
-(* add z, then drop the column that was last: the specification appends z, the code (through add_col_ordering and
-   SQLAlchemy's topological sort) puts it right after the first column.  Not a violation of the property text
-   (the order of the columns that were there is kept): the decider accepts it *)
+(* add z (no position: append), then drop the column that was last: the code records the pair (c, z) in add_col_ordering,
+   c disappears, and SQLAlchemy's topological sort emits z as soon as the first column is out: z lands SECOND, not last *)
 Definition w_ops_order := [OAddColumn w_z (mkCol w_z 0 true None) None None; ODropConstraint w_uqc; ODropColumn w_c].
-Theorem added_order_refuted : exists i T' nd r,
-  edit_all (j_ops i) (j_tbl i) = BOk T' /\ model10 i = OutOk nd r false /\
-  map c_name (n_cols nd) <> map c_name (n_cols (describe T')) /\ check_C10 i (model10 i) = true.
+Theorem added_order_refuted : exists i,
+  (exists nd r, model10 i = OutOk nd r false /\ map c_name (n_cols nd) = [w_id; w_z; w_a; w_b]) /\
+  (exists T', edit_all (j_ops i) (j_tbl i) = BOk T' /\ map c_name (n_cols (describe T')) = [w_id; w_a; w_b; w_z]) /\
+  check_C10 i (model10 i) = false /\ ~ C10_holds i (model10 i).
 Proof.
-  exists (w_in w_ops_order). eexists. eexists. eexists.
-  split; [vm_compute; reflexivity|]. split; [vm_compute; reflexivity|]. split; [vm_compute; discriminate|vm_compute; reflexivity].
+  exists (w_in w_ops_order). split; [eexists; eexists; split; vm_compute; reflexivity|].
+  split; [eexists; split; vm_compute; reflexivity|]. split; [vm_compute; reflexivity|].
+  intros H. cbn [C10_holds] in H.
+  assert (E : exists nd r, model10 (w_in w_ops_order) = OutOk nd r false /\ map c_name (n_cols nd) = [w_id; w_z; w_a; w_b])
+    by (eexists; eexists; split; vm_compute; reflexivity).
+  destruct E as [nd [r [E1 E2]]]. rewrite E1 in H. destruct H as [_ [_ [_ [_ [_ [_ [_ H]]]]]]].
+  assert (ET : exists T', edit_all (j_ops (w_in w_ops_order)) (j_tbl (w_in w_ops_order)) = BOk T' /\ map c_name (n_cols (describe T')) = [w_id; w_a; w_b; w_z])
+    by (eexists; split; vm_compute; reflexivity).
+  destruct ET as [T' [ET1 ET2]]. clear E2 ET2. vm_compute in E1. inversion E1; subst nd r. vm_compute in ET1. inversion ET1; subst T'.
+  destruct (H _ eq_refl) as [_ [_ [Hg _]]]. specialize (Hg (mkCol w_z 0 true None)). vm_compute in Hg.
+  assert (Hx : Some (Some w_id) = Some (Some w_b)) by (apply Hg; auto). vm_compute in Hx. discriminate.
 Qed.
 
 (* the primary key: if no operation mentions one of its columns it comes out identical — same columns, same order *)
